@@ -207,8 +207,10 @@ func runCase(t *testing.T, run *core.Run, name string, idx int, rng *rand.Rand) 
 		}
 		return 0
 	}
+	ubPrev := uint64(0)
 	var pendingSlash map[string]int // pub -> number of root heights listed in the results of the block just committed
 	// judge checks a list of implicated (validator, root heights) against the ledger
+	minRef := uint64(0) // evidence with a root height below this is expired (set per block, see below)
 	judge := func(stage, family string, ev []*bft.DoubleSignEvidence, dss []*lib.DoubleSigner, now uint64) bool {
 		for _, ds := range dss {
 			for _, rh := range ds.Heights {
@@ -221,7 +223,7 @@ func runCase(t *testing.T, run *core.Run, name string, idx int, rng *rand.Rand) 
 					a, b := e.VoteA.SignBytes(), e.VoteB.SignBytes()
 					if !bytes.Equal(a, b) && e.VoteA.Header.Equals(e.VoteB.Header) && L.has(e.VoteA.Header, ds.Id, a) && L.has(e.VoteB.Header, ds.Id, b) {
 						justified = true
-						if rh+unstaking+2 >= now { // two heights of slack around the boundary of 'unstaking blocks ago'
+						if rh >= minRef {
 							expired = false
 						}
 					}
@@ -236,7 +238,7 @@ func runCase(t *testing.T, run *core.Run, name string, idx int, rng *rand.Rand) 
 					fail(fmt.Sprintf("implicated-without-two-signed-payloads stage=%s family=%s validator=%s", stage, family, kind), now, map[string]any{"validator": pub, "root_height": rh})
 					return false
 				case expired:
-					fail(fmt.Sprintf("expired-evidence-implicates stage=%s", stage), now, map[string]any{"validator": pub, "evidence_root_height": rh, "now": now, "unstaking_blocks": unstaking, "family": family})
+					fail(fmt.Sprintf("expired-evidence-implicates stage=%s", stage), now, map[string]any{"validator": pub, "evidence_root_height": rh, "now": now, "minimum_evidence_height": minRef, "family": family})
 					return false
 				}
 				run.Count("implications_justified_by_ledger", 1)
@@ -249,6 +251,21 @@ func runCase(t *testing.T, run *core.Run, name string, idx int, rng *rand.Rand) 
 		proposer := b % 2
 		replica := 1 - proposer
 		leader := ch.Nodes[proposer].C.Consensus
+		// 'expired' = root height below (the root height the leader is on - unstaking blocks); governance may change the
+		// parameter, so the larger of its last two values is used (the code reads it from the state of the root height)
+		ubNow := uint64(unstaking)
+		if vp, e := ch.Nodes[proposer].C.FSM.GetParamsVal(); e == nil && vp != nil {
+			ubNow = vp.UnstakingBlocks
+		}
+		ub := ubNow
+		if ubPrev > ub {
+			ub = ubPrev
+		}
+		ubPrev = ubNow
+		minRef = 0
+		if leader.RootHeight > ub {
+			minRef = leader.RootHeight - ub
+		}
 		// ---- forge ----
 		var offers []forged
 		pick := func() *material { return mats[rng.Intn(len(mats))] }
@@ -294,11 +311,23 @@ func runCase(t *testing.T, run *core.Run, name string, idx int, rng *rand.Rand) 
 				vi := rng.Intn(len(m.views))
 				va, alt := m.views[vi], m.alts[vi]
 				bi, hi := byzIdx(m), honestIdx(m)
-				c := rng.Intn(12)
+				c := rng.Intn(13)
+				if c == 12 {
+					// a view only the Byzantine keys ever voted in: chain height chosen freely (evidence is valid for any height),
+					// root height fresh or long expired; both payloads signed by the Byzantine keys alone
+					mm := pick()
+					v := mm.committed.Header.Copy()
+					v.Height = []uint64{1, h + 1000, mm.height + 1, 1 << 40}[rng.Intn(4)]
+					v.Round, v.Phase = uint64(3+rng.Intn(3)), []lib.Phase{lib.Phase_PROPOSE_VOTE, lib.Phase_PRECOMMIT_VOTE}[rng.Intn(2)]
+					qa := payloadQC(v, crypto.Hash([]byte(fmt.Sprintf("%s/free/%d/a", name, n))), crypto.Hash([]byte("ra")), mm.committed.ProposerKey)
+					qb := payloadQC(v, crypto.Hash([]byte(fmt.Sprintf("%s/free/%d/b", name, n))), crypto.Hash([]byte("rb")), mm.committed.ProposerKey)
+					add("byzantine-only-view-free-height", assemble(ch, L, qa, mm.vs, byzIdx(mm), nil, nil), assemble(ch, L, qb, mm.vs, byzIdx(mm), nil, nil))
+					continue
+				}
 				if c == 11 { // genuine equivocation that nobody reported while it was fresh
 					var old []*material
 					for _, mm := range mats {
-						if mm.height%3 == 0 && mm.rootHeight+unstaking+2 < h {
+						if mm.height%3 == 0 && mm.rootHeight < minRef {
 							old = append(old, mm)
 						}
 					}
@@ -306,6 +335,9 @@ func runCase(t *testing.T, run *core.Run, name string, idx int, rng *rand.Rand) 
 						continue
 					}
 					m = old[rng.Intn(len(old))]
+					if rng.Intn(2) == 0 {
+						m = old[len(old)-1] // the one that expired most recently: the boundary
+					}
 					va, alt = m.views[vi], m.alts[vi]
 					add("genuine-but-expired", assemble(ch, L, va, m.vs, all(m.vs), nil, nil), assemble(ch, L, alt, m.vs, byzIdx(m), nil, nil))
 					continue
@@ -541,7 +573,7 @@ func runCase(t *testing.T, run *core.Run, name string, idx int, rng *rand.Rand) 
 			dsPct, capPct = vp.DoubleSignSlashPercentage, vp.MaxSlashPerCommittee
 		}
 		if os.Getenv("C14_DEBUG") != "" {
-			fmt.Printf("DEBUG %s h=%d dsPct=%d cap=%d pending=%v\n", name, h, dsPct, capPct, pendingSlash)
+			fmt.Printf("DEBUG %s h=%d qcHeight=%d qcRoot=%d leaderRoot=%d minRef=%d dsPct=%d cap=%d\n", name, h, p.QC.Header.Height, p.QC.Header.RootHeight, leader.RootHeight, minRef, dsPct, capPct)
 		}
 		if ch.Nodes[0].C.FSM.IsFeatureEnabled(2) {
 			version = 2
@@ -674,13 +706,13 @@ func cloneResults(r *lib.CertificateResult) *lib.CertificateResult {
 
 func TestCheck(t *testing.T) {
 	run := core.Start(t, "C14", "exploration",
-		"seeded full-node chains (protocol versions 1 and 2, double-sign slash 1/10/40 %, cap 15/50 %) with a ledger of every consensus signature; per block ~10 evidence objects from 12 forge "+
+		"seeded full-node chains (protocol versions 1 and 2, double-sign slash 1/10/40 %, cap 15/50 %) with a ledger of every consensus signature; per block ~10 evidence objects from 13 forge "+
 			"families go through the real ProcessDSE/AddDSE, ProduceProposal and ValidateProposal (plus 3 proposer-claimed slash lists the evidence does not justify), and certified slash lists are "+
 			"executed by the FSM; distinct_nontrivial = distinct (outcome, forge family) + claim kinds + slash shapes")
 	defer run.Finish()
 	run.MinDistinct = 12
 	run.Assume("BLS aggregate signatures are unforgeable; the harness root-chain manager answers IsValidDoubleSigner like cmd/rpc/query.go (last certificate, then the index); " +
-		"'expired' = root height more than unstaking-blocks (+2 slack) below the proposal's height; the per-committee cap is enforced by canopy from protocol version 2 on and is judged only there")
+		"'expired' = root height below (root height the leader is on - unstaking blocks, larger of the parameter's last two values); the per-committee cap is enforced by canopy from protocol version 2 on and is judged only there")
 	n := core.Pick(6, 120)
 	run.Sharded(n, func(i int) {
 		name := fmt.Sprintf("chain/%d", i)
